@@ -24,16 +24,22 @@ from common import Case, sx, parse_sx
 PROP = "C05"
 RULE = ("all 3 x 4 x 4 combinations of state_check_now in {unset, False, True} x state_hold, state_hold_false in {None, 0, "
         "2.5 s, 4.5 s} x initial truth x histories of <= 8 events at integer seconds mixing true/false evaluations, "
-        "attribute-only updates and unrelated changes, for decorators and task.wait_until, under both subsystems; "
-        "thorough: additionally every history of length <= 4 over {T, F, A, U} at 1 s spacing.  Non-trivial = at least "
-        "one evaluation (initial check or event); distinct by payload.")
+        "attribute-only updates and unrelated changes, for decorators and task.wait_until (with an overall timeout in "
+        "{none, 1.25, 3.75, 6.25 s} - so that it also falls inside a running state_hold), under both subsystems; plus "
+        "triggers made ONLY of any-change names (pyscript.x / pyscript.x.a / pyscript.x.*) with state_check_now unset, "
+        "False and explicitly True; plus the closed witnesses of Props/C05; thorough: additionally every history of "
+        "length <= 4 over {T, F, A, U} at 1 s spacing.  Non-trivial = at least one evaluation / match (initial check "
+        "or event); distinct by payload.")
 ASSUMPTIONS = [
     "time.monotonic / loop.time / dt_now are the virtual clock; timers fire exactly at their deadline (1 ms grid)",
     "event times are integer seconds, holds are 0 / 2.5 / 4.5 s: no event coincides with a hold deadline (NoTies); the "
     "behaviour at exact ties (and the <= 1e-6 slack in _cycle) is outside the model",
     "an attribute-only update of a value-watched entity is delivered to the loop without evaluation, a change of an "
     "unwatched entity is not delivered (proved in C04: C04_attr_only_no_eval, C04_unwatched_untouched)",
-    "the trigger has an expression and no any-change names (with any-change names legacy bypasses state_hold_false)",
+    "a trigger has either an expression on the value of one entity or only any-change names (mixed forms are not "
+    "generated: with an expression AND any-change names the subsystems treat state_hold_false differently for "
+    "any-change matches); timeouts never coincide with an event or a hold deadline",
+    "a run's kwargs / the dict returned by task.wait_until identify their event through the context id",
 ]
 TRUSTED = ["harness/run_C05.py (history -> HA operations on the virtual clock, canonicalisation, Python timeline)",
            "harness/vclock.py, harness/ha_env.py"]
@@ -54,16 +60,29 @@ def rnd_hist(rng, maxlen=8):
     return out
 
 
-# the closed witnesses of Props/C05 (replayed on the real code on every run): (api, legacy, check_now, S, H, b0, hist)
-# all of them are regression cases of FIXED findings (C05-F1..F5) and must be clean under both subsystems
+# the closed witnesses of Props/C05 (replayed on the real code on every run):
+# (api, legacy, check_now, S, H, b0, hist, names, timeout)
+# all of them are regression cases of FIXED findings (C05-F1..F5) or directed cases and must be clean under both subsystems
 WITNESSES = [
-    ("dec", False, None, 5, None, False, [[1, "T"], [3, "A"]]),             # C05_new_regress_attr_update_cancels_hold (#13)
-    ("dec", False, None, 5, None, False, [[1, "T"], [3, "T"]]),             # C05_new_regress_latest_args (#14)
-    ("dec", False, None, None, 2, True, [[1, "A"], [5, "T"]]),              # C05_new_regress_skip_starts_false_period
-    ("dec", False, True, None, 2, True, []),                                # C05_new_regress_checknow_holdfalse_no_start
-    ("wu", False, None, 5, 10, True, [[1, "F"], [2, "T"]]),                 # C05_new_waituntil_regress_holdfalse_disabled
-    ("wu", True, None, None, 0, False, [[2, "T"], [4, "F"], [6, "T"]]),     # C05_waituntil_regress_init_false
+    ("dec", False, None, 5, None, False, [[1, "T"], [3, "A"]], None, None),   # C05_new_regress_attr_update_cancels_hold (#13)
+    ("dec", False, None, 5, None, False, [[1, "T"], [3, "T"]], None, None),   # C05_new_regress_latest_args (#14)
+    ("dec", False, None, None, 2, True, [[1, "A"], [5, "T"]], None, None),    # C05_new_regress_skip_starts_false_period
+    ("dec", False, True, None, 2, True, [], None, None),                      # C05_new_regress_checknow_holdfalse_no_start
+    ("wu", False, None, 5, 10, True, [[1, "F"], [2, "T"]], None, None),       # C05_new_waituntil_regress_holdfalse_disabled
+    ("wu", True, None, None, 0, False, [[2, "T"], [4, "F"], [6, "T"]], None, None),   # C05_waituntil_regress_init_false
+    # C05_waituntil_timeout: the overall timeout falls inside a running hold (started by the initial check / by a change)
+    ("wu", True, None, 2.5, None, True, [], None, 1.25),
+    ("wu", True, None, 4.5, None, False, [[1, "T"]], None, 3.75),
+    ("wu", True, None, 2.5, None, False, [[1, "T"]], None, 3.75),             # the hold elapses first (3.5 s)
+    ("wu", True, None, 2.5, None, False, [[1, "T"], [2, "F"]], None, 6.25),   # hold cancelled, then the timeout
+    # C05_names_only_no_start: explicit state_check_now=True on triggers made of any-change names only
+    ("dec", False, True, None, None, True, [], "val", None),
+    ("dec", False, True, 2.5, None, True, [[4, "A"]], "star", None),
+    ("wu", False, True, None, None, True, [], "val", 1.25),
+    ("wu", False, True, None, None, True, [[2, "A"]], "attr", 3.75),
 ]
+TIMEOUTS = [None, None, 1.25, 3.75, 6.25]
+NAMES = {"val": "pyscript.x", "attr": "pyscript.x.a", "star": "pyscript.x.*"}
 
 
 def gen_cases(rng, tier, search):
@@ -71,25 +90,37 @@ def gen_cases(rng, tier, search):
     if search:
         per = 8 if tier == "quick" else 30
     cases = []
-    for api, legacy, cn, s, h, b0, hist in WITNESSES:
+    for api, legacy, cn, s, h, b0, hist, names, tmo in WITNESSES:
         for lg in (True, False):
-            cases.append(make_case(api, lg, cn, s, h, b0, hist))
+            cases.append(make_case(api, lg, cn, s, h, b0, hist, names, tmo))
     for cn, s, h in itertools.product(CHECK, HOLDS, HOLDS):
         for b0 in (False, True):
             hists = [rnd_hist(rng) for _ in range(per)]
             for hist in hists:
-                for api in ("dec", "wu"):
-                    for legacy in (True, False):
-                        cases.append(make_case(api, legacy, cn, s, h, b0, hist))
+                tmo = rng.choice(TIMEOUTS)
+                for legacy in (True, False):
+                    cases.append(make_case("dec", legacy, cn, s, h, b0, hist))
+                    cases.append(make_case("wu", legacy, cn, s, h, b0, hist, None, tmo))
+    # triggers made only of any-change names (no expression), state_check_now unset / False / explicitly True
+    for cn, s, form in itertools.product(CHECK, HOLDS, sorted(NAMES)):
+        for _ in range(1 if tier == "quick" and not search else 4):
+            h = rng.choice([None, None, 2.5])
+            hist = rnd_hist(rng, 5)
+            b0 = rng.random() < 0.5
+            tmo = rng.choice(TIMEOUTS)
+            for legacy in (True, False):
+                cases.append(make_case("dec", legacy, cn, s, h, b0, hist, form))
+                cases.append(make_case("wu", legacy, cn, s, h, b0, hist, form, tmo))
     if tier == "thorough" and not search:
         for n in range(0, 5):
             for kinds in itertools.product("TFAU", repeat=n):
                 hist = [[i + 1, k] for i, k in enumerate(kinds)]
                 cn, s, h = rng.choice(CHECK), rng.choice(HOLDS), rng.choice(HOLDS)
                 b0 = rng.random() < 0.5
-                for api in ("dec", "wu"):
-                    for legacy in (True, False):
-                        cases.append(make_case(api, legacy, cn, s, h, b0, hist))
+                tmo = rng.choice(TIMEOUTS)
+                for legacy in (True, False):
+                    cases.append(make_case("dec", legacy, cn, s, h, b0, hist))
+                    cases.append(make_case("wu", legacy, cn, s, h, b0, hist, None, tmo))
     return cases
 
 
@@ -101,22 +132,32 @@ def ms(x):
     return None if x is None else int(round(x * 1000))
 
 
-def kinds_of(b0, hist):
-    """history letters -> model event kinds (T/F evaluation results, S = delivered without evaluation, U = not delivered)"""
-    out = []
-    for i, (t, k) in enumerate(hist):
-        out.append([t * 1000, {"T": "T", "F": "F", "A": "S", "U": "U"}[k], i + 1])
-    return out
+KIND = {
+    None: {"T": "T", "F": "F", "A": "S", "U": "U"},     # expression on the value of pyscript.x
+    "val": {"T": "T", "F": "T", "A": "S", "U": "U"},    # "pyscript.x": every value change matches, attribute-only does not
+    "attr": {"T": "S", "F": "S", "A": "T", "U": "U"},   # "pyscript.x.a": only a change of attribute a matches
+    "star": {"T": "S", "F": "S", "A": "T", "U": "U"},   # "pyscript.x.*": only attribute changes match
+}
 
 
-def make_case(api, legacy, cn, s, h, b0, hist):
-    line = "C05 " + sx([api, "legacy" if legacy else "new", eff_check(api, cn),
-                        "none" if s is None else ms(s), "none" if h is None else ms(h), b0, kinds_of(b0, hist)])
-    tags = [api, "legacy" if legacy else "new", f"check_now={cn}", f"hold={s}", f"hold_false={h}", f"b0={b0}"]
+def kinds_of(names, hist):
+    """history letters -> model event kinds (T/F evaluation results - for a names-only trigger a match is a true
+    evaluation -, S = delivered without evaluation, U = not delivered)"""
+    return [[t * 1000, KIND[names][k], i + 1] for i, (t, k) in enumerate(hist)]
+
+
+def make_case(api, legacy, cn, s, h, b0, hist, names=None, timeout=None):
+    if api == "dec":
+        timeout = None
+    line = "C05 " + sx([api + ("n" if names else ""), "legacy" if legacy else "new", eff_check(api, cn),
+                        "none" if s is None else ms(s), "none" if h is None else ms(h), b0, kinds_of(names, hist),
+                        "none" if timeout is None else ms(timeout)])
+    tags = [api, "legacy" if legacy else "new", f"check_now={cn}", f"hold={s}", f"hold_false={h}", f"b0={b0}",
+            f"names={names}", f"timeout={timeout}"]
     for _, k in hist:
         tags.append("ev:" + k)
-    return Case({"api": api, "legacy": legacy, "check_now": cn, "hold": s, "hold_false": h, "b0": b0, "hist": hist},
-                line, tags=tags)
+    return Case({"api": api, "legacy": legacy, "check_now": cn, "hold": s, "hold_false": h, "b0": b0, "hist": hist,
+                 "names": names, "timeout": timeout}, line, tags=tags)
 
 
 # ------------------------------------------------------------------ the real code
@@ -132,18 +173,23 @@ def kw_src(p):
 
 
 def script_src(p):
+    trig = NAMES[p["names"]] if p.get("names") else EXPR
     if p["api"] == "dec":
-        return (f'@state_trigger("{EXPR}"{kw_src(p)})\n'
+        return (f'@state_trigger("{trig}"{kw_src(p)})\n'
                 "def f(**kw):\n"
-                "    rec('run', kw.get('value'), kw.get('trigger_type'))\n")
+                "    c = kw.get('context')\n"
+                "    rec('run', c.id if c is not None else None, kw.get('trigger_type'))\n")
+    tmo = f", timeout={p['timeout']!r}" if p.get("timeout") is not None else ""
     return ("@service\n"
             "def waiter():\n"
-            f'    r = task.wait_until(state_trigger="{EXPR}"{kw_src(p)})\n'
-            "    rec('run', r.get('value'), r.get('trigger_type'))\n")
+            f'    r = task.wait_until(state_trigger="{trig}"{kw_src(p)}{tmo})\n'
+            "    c = r.get('context')\n"
+            "    rec('run', c.id if c is not None else None, r.get('trigger_type'))\n")
 
 
 def run_one(p):
     from ha_env import run_ha
+    from homeassistant.core import Context
     src = script_src(p)
 
     async def body(env):
@@ -156,22 +202,21 @@ def run_one(p):
         if p["api"] == "wu":
             await env.call("pyscript", "waiter", blocking=False)
             await env.settle(0.001)
-        val = {}
         attr = 0
         cur = "t0" if p["b0"] else "f0"
         attrs = {}
         for i, (t, k) in enumerate(p["hist"]):
             await env.settle_until(t0 + t)
+            ctx = Context(id=f"c{i + 1}")
             if k in "TF":
                 cur = f"{k.lower()}{i + 1}"
-                val[cur] = i + 1
-                env.hass.states.async_set("pyscript.x", cur, dict(attrs))
+                env.hass.states.async_set("pyscript.x", cur, dict(attrs), context=ctx)
             elif k == "A":
                 attr += 1
                 attrs = {"a": str(attr)}
-                env.hass.states.async_set("pyscript.x", cur, dict(attrs))
+                env.hass.states.async_set("pyscript.x", cur, dict(attrs), context=ctx)
             else:
-                env.hass.states.async_set("pyscript.y", str(i + 1), {})
+                env.hass.states.async_set("pyscript.y", str(i + 1), {}, context=ctx)
             await env.settle(0)
         last = p["hist"][-1][0] if p["hist"] else 0
         await env.settle_until(t0 + last + 12)
@@ -180,8 +225,12 @@ def run_one(p):
             if r[1] != "run":
                 continue
             v = r[2]
-            a = 0 if v is None else val.get(str(v), -1)
-            out.append([int(round((r[0] - t0) * 1000)), a if r[3] == "state" else -2])
+            a = 0 if v is None else (int(v[1:]) if isinstance(v, str) and v[:1] == "c" and v[1:].isdigit() else -1)
+            if r[3] == "timeout":
+                a = "timeout"
+            elif r[3] != "state":
+                a = -2
+            out.append([int(round((r[0] - t0) * 1000)), a])
         return out
 
     try:
@@ -218,7 +267,7 @@ def run_impl(cases):
         c.payload["_oracle"] = orc
         c.impl = json.dumps({"obs": o.get("runs", o), "oracle": orc})
         c.nontrivial = bool(eff_check(p["api"], p["check_now"]) or p["hold_false"] is not None
-                            or any(k in "TF" for _, k in p["hist"]))
+                            or any(KIND[p.get("names")][k] == "T" or k == "F" for _, k in p["hist"]))
 
 
 # ------------------------------------------------------------------ the documented timeline, in Python
@@ -227,6 +276,12 @@ def timeline(p):
     api = p["api"]
     cn = eff_check(api, p["check_now"])
     S, H, b0 = ms(p["hold"]), ms(p["hold_false"]), p["b0"]
+    names = p.get("names")
+    if names:
+        # docs: "entries that are plain state variable names (any change) are ignored during the initial check - only
+        # expressions are checked"; "the expression is always True whenever the state variable changes"
+        cn, H = False, None
+    T = ms(p.get("timeout"))
     runs = []
     pending = None          # [start, args]
     false_since = None
@@ -248,6 +303,8 @@ def timeline(p):
         if pending is not None and pending[0] + S <= t:
             runs.append([pending[0] + S, pending[1]])
             pending = None
+        if names:
+            k = {"T": "T", "S": "A", "U": "U"}[KIND[names][k]]
         if k not in "TF":
             continue
         if k == "T":
@@ -264,7 +321,11 @@ def timeline(p):
                 false_since = t
     if pending is not None:
         runs.append([pending[0] + S, pending[1]])
-    return runs[:1] if api == "wu" else runs
+    if api != "wu":
+        return runs
+    if T is not None and (not runs or runs[0][0] >= T):
+        return [[T, "timeout"]]         # nothing triggered before the overall timeout
+    return runs[:1]
 
 
 # ------------------------------------------------------------------ columns, verdict
@@ -274,7 +335,7 @@ def split(outline):
     p = parse_sx("(" + outline[3:] + ")")
 
     def runs(x):
-        return [[int(r[0]), int(r[1])] for r in x[1]]
+        return [[int(r[0]), r[1] if r[1] == "timeout" else int(r[1])] for r in x[1]]
     return json.dumps({"m": runs(p[0]), "s": runs(p[1])}), json.dumps({"spec": runs(p[1]), "noties": p[2][1]})
 
 
@@ -326,13 +387,16 @@ def classify(c, reason):
         shape = "check_now" if eff_check(p["api"], p["check_now"]) else "no_check"
         shape += ",hold" if p["hold"] is not None else ""
         shape += ",hold_false" if p["hold_false"] is not None else ""
+        shape += ",names-only" if p.get("names") else ""
+        shape += ",timeout" if p.get("timeout") is not None else ""
         return f"unexplained:{p['api']}:{'legacy' if p['legacy'] else 'new'}:{shape}"
     return cat
 
 
 def replay_cases(obj):
     p = obj["case"]
-    return [make_case(p["api"], p["legacy"], p["check_now"], p["hold"], p["hold_false"], p["b0"], p["hist"])]
+    return [make_case(p["api"], p["legacy"], p["check_now"], p["hold"], p["hold_false"], p["b0"], p["hist"],
+                      p.get("names"), p.get("timeout"))]
 
 
 def shrink(c, reason):
@@ -348,7 +412,8 @@ def shrink(c, reason):
             budget -= 1
             q = dict(p)
             q["hist"] = p["hist"][:i] + p["hist"][i + 1:]
-            c2 = make_case(q["api"], q["legacy"], q["check_now"], q["hold"], q["hold_false"], q["b0"], q["hist"])
+            c2 = make_case(q["api"], q["legacy"], q["check_now"], q["hold"], q["hold_false"], q["b0"], q["hist"],
+                           q.get("names"), q.get("timeout"))
             try:
                 run_impl([c2])
                 c2.model, c2.spec = split(common.drive([c2.line])[0])
